@@ -4,11 +4,11 @@
 
 JOBS = [
     # ---- playback/tape_recorder.py: decorator wrappers and play
-    dict(job=('specs.tr_units', 'w_in_playback', {}), props=['C01', 'C02', 'C09', 'C06', 'C11', 'C20'], cases='w_in'),
+    dict(job=('specs.tr_units', 'w_in_playback', {}), props=['C01', 'C02', 'C09', 'C06', 'C11', 'C20', 'C08'], cases='w_in'),
     dict(job=('specs.tr_units', 'w_in_recording', {}), props=['C01', 'C02', 'C03', 'C04', 'C05', 'C09', 'C11', 'C20'], cases='w_in'),
     dict(job=('specs.tr_units', 'w_out', {'mode': 'playback'}), props=['C01', 'C02', 'C03', 'C09'], cases='w_out'),
     dict(job=('specs.tr_units', 'w_out', {'mode': 'recording'}), props=['C01', 'C02', 'C03', 'C04', 'C05', 'C09'], cases='w_out'),
-    dict(job=('specs.tr_units', 'w_op_recording', {}), props=['C03', 'C04', 'C05', 'C09', 'C17', 'C18'], cases='w_op'),
+    dict(job=('specs.tr_units', 'w_op_recording', {}), props=['C03', 'C04', 'C05', 'C09', 'C17', 'C18', 'C11'], cases='w_op'),
     dict(job=('specs.tr_units', 'w_op_passthrough', {'mode': 'disabled'}), props=['C04']),
     # the input / output wrappers when NOT intercepting: idle recorder, or a call nested inside another interception
     dict(job=('specs.tr_units', 'w_passthrough', {'unit': 'in', 'mode': 'idle'}), props=['C04', 'C09']),
@@ -18,7 +18,7 @@ JOBS = [
     # statement-level thread interference (thorough tier only: ~10 minutes)
     dict(job=('specs.tr_units', 'w_in_recording_interference', {'case': {'dh': 'none', 'res': 'none', 'fb': 'none'}}), props=['C04'], tier='thorough'),
     dict(job=('specs.tr_units', 'w_op_playback', {}), props=['C01', 'C02', 'C03']),
-    dict(job=('specs.tr_units', 'play', {}), props=['C01', 'C02', 'C03', 'C09', 'C08', 'C19']),
+    dict(job=('specs.tr_units', 'play', {}), props=['C01', 'C02', 'C03', 'C09', 'C08', 'C19', 'C11']),
     # ---- small public / helper methods of the recorder (function-level contracts, every state under the class invariant)
     dict(job=('specs.tr_small', 'discard_recording', {}), props=['C04', 'C05', 'C09', 'C17', 'C03']),
     dict(job=('specs.tr_small', 'force_sample_recording', {}), props=['C04', 'C09', 'C17']),
@@ -27,7 +27,7 @@ JOBS = [
     dict(job=('specs.tr_small', 'play_data', {}), props=['C02', 'C09', 'C11']),
     dict(job=('specs.tr_small', 'reset_active_recording', {}), props=['C05', 'C09', 'C17', 'C03']),
     dict(job=('specs.tr_small', 'factories', {}), props=['C01', 'C02', 'C03', 'C04', 'C06']),
-    dict(job=('specs.tr_small', 'recording_params_unit', {}), props=['C17']),
+    dict(job=('specs.tr_small', 'recording_params_unit', {}), props=['C17', 'C11']),
     dict(job=('specs.tr_small', 'misc_recorder', {}), props=['C04', 'C09', 'C02']),
     # ---- playback/interception/files
     dict(job=('specs.files', 'get_file_path', {}), props=['C20']),
@@ -166,6 +166,11 @@ BOUNDED = {'specs.studio.grouping': 'replay/bounded/c19_grouping.py',
            'specs.files.restore_input': 'replay/bounded/c20_files.py', 'specs.files.restore_output': 'replay/bounded/c20_files.py',
            'specs.files.prepare_handlers': 'replay/bounded/c20_files.py',
            # cassettes: round trip, independence of fetches, lookup, S3 confinement on the real classes
+           # replay stack: real recorder + in-memory cassette + real equalizer; a recording's comparison inside a sequence = its comparison alone
+           'specs.equalizer.': 'replay/bounded/c08_equalizer.py', 'specs.tr_units.w_in_playback': 'replay/bounded/c08_equalizer.py',
+           'specs.tr_units.w_out{\'mode\': \'playback\'': 'replay/bounded/c08_equalizer.py', 'specs.tr_units.play': 'replay/bounded/c08_equalizer.py',
+           'specs.tr_units.w_op_playback': 'replay/bounded/c08_equalizer.py',
+           'specs.matcher.match_value': 'replay/bounded/c14_matcher.py',
            'specs.cassettes.': 'replay/bounded/c07_cassettes.py', 'specs.s3.s3_save_get': 'replay/bounded/c07_cassettes.py', 'specs.s3.s3_close': 'replay/bounded/c07_cassettes.py'}
 
 
@@ -175,7 +180,7 @@ SEARCH = [('specs.cassettes.', 'replay/bounded/c07_cassettes.py'), ('specs.s3.s3
           ('specs.s3.s3_create', 'replay/bounded/c07_cassettes.py'), ('specs.s3.facade_units', 'replay/bounded/c07_cassettes.py'), ('specs.s3.s3_category', 'replay/bounded/c07_cassettes.py'),
           ('specs.s3.s3_id_prefixes', 'replay/bounded/c16_s3_lookup.py'), ('specs.s3.facade_iter_keys', 'replay/bounded/c16_s3_lookup.py'),
           ('specs.s3.s3_iter_recording_ids', 'replay/bounded/c16_s3_lookup.py'), ('specs.s3.s3_prefix_iterators', 'replay/bounded/c16_s3_lookup.py'),
-          ('specs.files.', 'replay/bounded/c20_files.py'), ('specs.studio.grouping', 'replay/bounded/c19_grouping.py'), ('specs.matcher.match_all', 'replay/bounded/c07_cassettes.py')]
+          ('specs.files.', 'replay/bounded/c20_files.py'), ('specs.matcher.match_value', 'replay/bounded/c14_matcher.py'), ('specs.equalizer.', 'replay/bounded/c08_equalizer.py'), ('specs.studio.grouping', 'replay/bounded/c19_grouping.py'), ('specs.matcher.match_all', 'replay/bounded/c07_cassettes.py')]
 
 
 def search_for(jobname):
